@@ -335,8 +335,9 @@ func VerifyHashed(pubx, puby, e, r, s []byte) (bool, error) {
 	}
 
 	// done sanity check
-	var tBytes []byte
-	tBytes = t.Bytes()
+	// ScalarMixedMult_Unsafe reads the scalar as a fixed 256-bit string, so t must be left-padded
+	// like r and s are: big.Int.Bytes() drops leading zero bytes
+	tBytes := ensure32Bytes(&t)
 
 	result, err = internal.ScalarMixedMult_Unsafe(s, pub, tBytes)
 	if err != nil {
